@@ -6,6 +6,7 @@
 
 #pragma once
 
+#include <pika/config.hpp>
 #include <pika/assert.hpp>
 #include <pika/concurrency/cache_line_data.hpp>
 
@@ -127,6 +128,7 @@ namespace pika::concurrency::detail {
 
                 index = expected_range.first;
                 desired_range = expected_range.increment_first();
+                PIKA_VERIF_POINT("ciq.cas.left", this, expected_range.first, expected_range.last);
             } while (!current_range.data_.compare_exchange_weak(expected_range, desired_range));
 
             return std::make_optional<>(index);
@@ -148,6 +150,7 @@ namespace pika::concurrency::detail {
 
                 desired_range = expected_range.decrement_last();
                 index = desired_range.last;
+                PIKA_VERIF_POINT("ciq.cas.right", this, expected_range.first, expected_range.last);
             } while (!current_range.data_.compare_exchange_weak(expected_range, desired_range));
 
             return std::make_optional(index);
